@@ -67,7 +67,7 @@ func Hist(t *rapid.T, o HistOpts) *History {
 	if o.BadDeltas && rapid.IntRange(0, 6).Draw(t, "createBad") == 0 {
 		createClass = rapid.SampledFrom([]string{refmodel.DeltaFailPatch, refmodel.DeltaInvalid, refmodel.DeltaInvalid, refmodel.DeltaMismatch}).Draw(t, "createClass")
 		if createClass == refmodel.DeltaInvalid {
-			createInvalid = rapid.SampledFrom([]string{hist.InvalidNoPatches, hist.InvalidBadCommit, hist.InvalidUnknownAction}).Draw(t, "createInvalidKind")
+			createInvalid = rapid.SampledFrom([]string{hist.InvalidNoPatches, hist.InvalidBadCommit, hist.InvalidUnknownAction, hist.InvalidSecondPatch}).Draw(t, "createInvalidKind")
 		}
 	}
 	create := hist.NewCreate(hist.CreateSpec{Name: "create", Code: code, Recovery: r0, Update: u0,
@@ -100,11 +100,11 @@ func Hist(t *rapid.T, o HistOpts) *History {
 		if o.BadDeltas && kind != "deactivate" && rapid.IntRange(0, 3).Draw(t, "bad") == 0 {
 			opt.Delta = rapid.SampledFrom([]string{refmodel.DeltaFailPatch, refmodel.DeltaInvalid, refmodel.DeltaMismatch, refmodel.DeltaMissing}).Draw(t, "deltaClass")
 			if opt.Delta == refmodel.DeltaInvalid {
-				opt.InvalidKind = rapid.SampledFrom([]string{hist.InvalidNoPatches, hist.InvalidBadCommit, hist.InvalidUnknownAction}).Draw(t, "invalidKind")
+				opt.InvalidKind = rapid.SampledFrom([]string{hist.InvalidNoPatches, hist.InvalidBadCommit, hist.InvalidUnknownAction, hist.InvalidSecondPatch}).Draw(t, "invalidKind")
 			}
 		}
 		if o.Windows && rapid.IntRange(0, 3).Draw(t, "window") == 0 {
-			w := rapid.SampledFrom([][2]int64{{1, 4000}, {1, 0}, {0, 4000}, {5000, 0}, {5000, 9000}, {1, 5}, {0, 5}}).Draw(t, "fromUntil")
+			w := rapid.SampledFrom([][2]int64{{1, 4000}, {1, 0}, {0, 4000}, {5000, 0}, {5000, 9000}, {1, 5}, {0, 5}, {5000, 9}, {30, 12}}).Draw(t, "fromUntil")
 			opt.From, opt.Until = w[0], w[1]
 		}
 		forged := false
